@@ -54,7 +54,7 @@ def run(repo, tier):
     r.rule("R18.2", "__enter__ stores get_mxcsr() into saved_state before any set_mxcsr; saved_state has no foreign writer", floor=2)
     r.rule("R18.3", "the value set in __enter__ derives from a register read performed inside __enter__ (read-modify-write locality)", floor=1)
     r.rule("R18.4", "per path, the mask arithmetic changes exactly the bits of the requested fields, to the requested values", floor=4)
-    r.rule("R18.5", "FZ/DAZ readers and __str__ test the same bits the writer changes", floor=3)
+    r.rule("R18.5", "FZ/DAZ readers and __str__ test the same bits the writer changes", floor=2)
     r.rule("R18.7", "get_mxcsr returns a fresh snapshot object on every call (saved_state must not alias a buffer that later reads overwrite)", floor=1)
     r.rule("R18.6", "machine-code blobs: setter slot holds `ldmxcsr [rdi]; ret`, getter slot `stmxcsr [rdi]; ret`, offsets follow write order", floor=2)
 
